@@ -213,6 +213,8 @@ PRED_CLASSES = ["op=win", "op=draw", "op=rank", "n=2", "n=3", "n=8", "kind=PL", 
 def plan_C09(run):
     # spec -> code: the three predictions on every game over the cast (all shapes, up to 3 quick / 4 thorough teams), five models
     mc.lattice(run, "predict", ALL_KINDS, ["default"], q(run, 4, 5), q(run, 3, 4), style="predict", invariants=mc.INV_PREDICT)
+    # corners of the numeric domain (saturated pairs beside wide ones, 16-player teams, beta over six orders of magnitude)
+    campaign(run, "extremes", {run.prop}, lambda s, r: drivers.extremes_campaign(s, r, q(run, 400, 8000), ops=("win", "draw", "rank")))
     n = q(run, 800, 20000)
     campaign(run, "predict-campaign", {"C09"}, lambda s, r: drivers.predict_campaign(s, r, n))
     run.require_classes(PRED_CLASSES, "predict-campaign")
@@ -226,6 +228,8 @@ def plan_C09(run):
 def plan_C10(run):
     # spec -> code: the three predictions on every game over the cast (all shapes, up to 3 quick / 4 thorough teams), five models
     mc.lattice(run, "predict", ALL_KINDS, ["default"], q(run, 4, 5), q(run, 3, 4), style="predict", invariants=mc.INV_PREDICT)
+    # corners of the numeric domain (saturated pairs beside wide ones, 16-player teams, beta over six orders of magnitude)
+    campaign(run, "extremes", {run.prop}, lambda s, r: drivers.extremes_campaign(s, r, q(run, 400, 8000), ops=("win", "draw", "rank")))
     n = q(run, 800, 20000)
     campaign(run, "predict-campaign", {"C10"}, lambda s, r: drivers.predict_campaign(s, r, n))
     run.require_classes(PRED_CLASSES, "predict-campaign")
@@ -240,6 +244,8 @@ def plan_C10(run):
 def plan_C11(run):
     # spec -> code: the three predictions on every game over the cast (all shapes, up to 3 quick / 4 thorough teams), five models
     mc.lattice(run, "predict", ALL_KINDS, ["default"], q(run, 4, 5), q(run, 3, 4), style="predict", invariants=mc.INV_PREDICT)
+    # corners of the numeric domain (saturated pairs beside wide ones, 16-player teams, beta over six orders of magnitude)
+    campaign(run, "extremes", {run.prop}, lambda s, r: drivers.extremes_campaign(s, r, q(run, 400, 8000), ops=("win", "draw", "rank")))
     n = q(run, 800, 20000)
     campaign(run, "predict-campaign", {"C11"}, lambda s, r: drivers.predict_campaign(s, r, n))
     run.require_classes(PRED_CLASSES, "predict-campaign")
@@ -253,6 +259,8 @@ def plan_C11(run):
 def plan_C12(run):
     # spec -> code: the three predictions on every game over the cast (all shapes, up to 3 quick / 4 thorough teams), five models
     mc.lattice(run, "predict", ALL_KINDS, ["default"], q(run, 4, 5), q(run, 3, 4), style="predict", invariants=mc.INV_PREDICT)
+    # corners of the numeric domain (saturated pairs beside wide ones, 16-player teams, beta over six orders of magnitude)
+    campaign(run, "extremes", {run.prop}, lambda s, r: drivers.extremes_campaign(s, r, q(run, 400, 8000), ops=("win", "draw", "rank")))
     n = q(run, 1200, 30000)
     campaign(run, "predict-campaign", {"C12"}, lambda s, r: drivers.predict_campaign(s, r, n))
     run.require_classes(PRED_CLASSES, "predict-campaign")
